@@ -187,6 +187,33 @@ def check_C13(run):
             s.events = l2.interleave(rng, [('E', 'S', p, d) for p, d in s2] + [('Z', 'S')], [('E', 'D', p, d) for p, d in d2] + [('Z', 'D')])
             scs.append(s)
         groups.append((gid, scs)); gid += 1
+    # large listings (the ordered maps hold hundreds of keys, most of them matched on both sides), arrival nearly level
+    for _ in range(6 if quick else 40):
+        n = rng.choice([200, 330, 500])
+        names = [f'e{i:03d}' for i in range(n)]
+        sev, dev = [], []
+        for nm in names:
+            r = rng.random()
+            t = rng.choice([10 ** 9, 2 * 10 ** 9])
+            if r < 0.62: sev.append((nm, f'F:{t}:0')); dev.append((nm, f'F:{t}:0'))
+            elif r < 0.78: sev.append((nm, f'F:{t}:0'))
+            elif r < 0.94: dev.append((nm, f'F:{t}:0'))
+            elif r < 0.97: sev.append((nm, 'D')); dev.append((nm, f'F:{t}:0'))
+            else: sev.append((nm, f'F:{2 * t}:0')); dev.append((nm, f'F:{t}:0'))
+        base = l2.gen_scenario(rng, profile='folder', faults=False)
+        base.beh, base.answers, base.dry, base.filters, base.err_at_cmd = 'ooooo', '', False, [], None
+        base.files = [(p, [(b'', False)]) for p, d in sev if d.startswith('F:')]
+        scs = []
+        for chunk in (1, 3, 7, n):
+            for lead in ('S', 'D'):
+                rot = rng.randrange(n)
+                s2, d2 = sev[rot:] + sev[:rot], dev[rot:] + dev[:rot]
+                ev, i, j = [], 0, 0
+                while i < len(s2) or j < len(d2):
+                    a = [('E', 'S', p, d) for p, d in s2[i:i + chunk]]; b = [('E', 'D', p, d) for p, d in d2[j:j + chunk]]
+                    ev += (a + b) if lead == 'S' else (b + a); i += chunk; j += chunk
+                s = base.clone(); s.events = ev + [('Z', 'S'), ('Z', 'D')]; scs.append(s)
+        groups.append((gid, scs)); gid += 1
     flat = [s for _, scs in groups for s in scs]
     res = l2_stream(run, flat, [('order', oracle_order)], 'planner-trace',
                     nontrivial=lambda r: any(cmd_name(c).startswith('Delete') for c in r['impl_r'].get('dest', [])) and
@@ -206,6 +233,34 @@ def check_C13(run):
                                request_line_1=a['line'], request_line_2=b['line'], impl_1=a['impl'], impl_2=b['impl'],
                                scenario_1=a['sc'].describe(), scenario_2=b['sc'].describe()))
         run.count('timing-groups')
+    # ordered_map.rs itself: the real OrderedMap against the model OMap on long operation sequences
+    olines = []
+    for _ in range(300 if quick else 3000):
+        n = rng.choice([5, 20, 60, 300, 700])
+        keys = [str(i) for i in range(max(3, n // 2))]
+        ops, live, nops = [], set(), 0
+        p_remove = rng.choice([0.2, 0.45])          # (the planner removes most of what it adds when the trees are nearly equal)
+        for _ in range(n):
+            r = rng.random(); nops += 1
+            if r < 0.5 or not live:
+                k_ = rng.choice(keys) if rng.random() < 0.3 else str(len(keys) + nops)
+                ops += ['a', k_, str(rng.randint(0, 9))]; live.add(k_)
+            elif r < 0.6: ops += ['u', rng.choice(sorted(live)), str(rng.randint(0, 9))]
+            elif r < 0.6 + p_remove:
+                k_ = rng.choice(sorted(live)) if rng.random() < 0.9 else rng.choice(keys)
+                ops += ['r', k_]; live.discard(k_)
+            elif r < 0.98: ops += ['a', str(len(keys) + nops), '1']; live.add(str(len(keys) + nops))
+            else: ops += ['R']
+        if rng.random() < 0.05:
+            ops += ['u', 'never-added', '1']; nops += 1      # update of a missing key: the unwrap panics (the planner theorem shows it unreachable)
+        olines.append('omap %d %s' % (nops, ' '.join(ops)))
+    for l, (ia, _), ma in zip(olines, C.run_harness(olines), C.run_model(olines)):
+        run.count('omap:' + ('panic' if ia == 'panic' else 'ok')); run.cov['traces_validated_against_impl'] += 1
+        if ia != ma:
+            run.violation(dict(kind='correspondence-broken', correspondence='L1/ordered-map', request_line=l[:3000], impl=ia[:1500], model=ma[:1500],
+                               note='the real OrderedMap and the model differ on this operation sequence (iteration order / content / update of a missing key)'), no_input=True)
+            break
+    run.cov['disagreements_checked'] += len(olines)
     run.cov['trusted_base'] = C.GLOBAL_TRUST + [
         'crossbeam select() delivers whichever stream is ready; the forced order (one message in flight) is the schedule',
         'parent-before-child order inside a listing is the walker\'s guarantee (C17)']
@@ -1119,6 +1174,27 @@ def check_C14(run):
         want = 'toDoer=[%s] toBoss=[%s] reuse=0' % (','.join(map(str, range(nb))), ','.join(map(str, range(nd))))
         if ans != want:
             run.violation(dict(kind='oracle-failed-on-implementation', oracle='an honest TCP link delivers everything exactly once in order, wherever the byte stream is segmented', layer='link', request_line=l, impl=ans, want=want))
+            break
+
+    # payload sizes through the real encrypted link, both directions: around every power of two (any buffer that grows, or any
+    # off-by-a-tag in its size, bites in a window a few bytes wide) and the largest chunk itself
+    maxc = (run.extract_status.get('constants', {}) or {}).get('maxChunk') or 4 * 1024 * 1024
+    sz = [0, 1, 2, 15, 16, 17, 100] + list(range(2 ** 12 - 40, 2 ** 12 + 9, 4)) + list(range(2 ** 16 - 48, 2 ** 16 + 9))
+    for k in ((13, 14, 15, 17, 18, 19) if not thorough else range(13, 23)):
+        sz += list(range(2 ** k - 72, 2 ** k + 9, 8 if not thorough else 4))
+    sz += [maxc - 1, maxc] if not thorough else [maxc - 17, maxc - 16, maxc - 1, maxc]
+    groups = [sz[i:i + 60] for i in range(0, len(sz), 60)]
+    glines = [f'linksz {key} 120000 {len(g)} ' + ' '.join(map(str, g)) for g in groups]
+    for g, (ans, _) in zip(groups, C.run_harness(glines, timeout=1800)):
+        for x in g: run.case(('linksz', x), x >= 4096, sample=None)
+        run.count('tcp-link:sized-payloads', len(g)); run.cov['traces_validated_against_impl'] += len(g)
+        want = f'toDoer={len(g)} toBoss={len(g)} of={len(g)}'
+        if ans != want:
+            import re as _re
+            m = _re.match(r'toDoer=(\d+) toBoss=(\d+)', ans)
+            first = g[min(int(m.group(1)), int(m.group(2)))] if m and min(int(m.group(1)), int(m.group(2))) < len(g) else None
+            run.violation(dict(kind='oracle-failed-on-implementation', oracle='every payload size from empty to the largest chunk crosses the encrypted link intact, exactly once, in order (both directions)',
+                               layer='link', payload_sizes=g, impl=ans, want=want, first_payload_size_not_delivered=first))
             break
 
     def on_broken(failed):
